@@ -8,6 +8,13 @@
 //! every tenant's whole view (scan_nodes, scan_edges, get_node, get_edge for all ids, and
 //! the tenant listing) is compared with a per-tenant ModelKv.
 //!
+//! Names also come in pairs that are textual transformations of one another — the
+//! separator (or the escape character) written in an escaped form: percent-encoding in
+//! upper/lower case, double encoding, backslash, doubling, a leading/trailing escape
+//! character — because a key scheme that escapes the separator must be injective.
+//! Property updates (`persist_update_node_properties` / `persist_update_edge_properties`)
+//! are part of the history, preferably right after another tenant wrote the same id.
+//!
 //! `TenantManager::create_tenant` and the HTTP `POST /api/tenants` handler validate
 //! nothing about the id, so every string is a name "the system accepts".
 
@@ -65,7 +72,10 @@ fn open(dir: &Path, names: &[String]) -> Result<PersistenceManager, String> {
 fn relation(reader: &str, owner: &str, tag: &str) -> &'static str {
     let rp = format!("{reader}:");
     let ok = format!("{owner}:{tag}:");
-    if ok.starts_with(&rp) {
+    if reader != owner && unescaped(reader) == unescaped(owner) {
+        // "a:b" and "a%3Ab": the two names are one string once escape sequences are undone
+        "tenant_names_equal_after_unescaping"
+    } else if ok.starts_with(&rp) {
         // "a" reading "a:n"'s keys, or "a:n" reading "a"'s node keys `a:n:<id>`: the prefix
         // `tenant:` is not unique to the tenant
         "scan_prefix_shared_with_other_tenant"
@@ -77,8 +87,44 @@ fn relation(reader: &str, owner: &str, tag: &str) -> &'static str {
     }
 }
 
+/// A name with the usual escape notations of the separator / escape character undone, to a
+/// fixpoint (only used to CLASSIFY a mix-up that was already observed, never to detect one).
+fn unescaped(name: &str) -> String {
+    let mut cur = name.to_string();
+    for _ in 0..8 {
+        let mut next = cur.clone();
+        for (from, to) in [("%3A", ":"), ("%3a", ":"), ("%25", "%"), ("\\:", ":"), ("::", ":"), ("%%", "%")] {
+            next = next.replace(from, to);
+        }
+        if next == cur {
+            break;
+        }
+        cur = next;
+    }
+    cur
+}
+
+/// Textual transformations of a tenant name: the separator or the escape character
+/// written in an escaped form (rank `how` chooses).
+fn escaped_variant(name: &str, how: u64) -> String {
+    match how % 10 {
+        0 => name.replace(':', "%3A"),
+        1 => name.replace(':', "%3a"),
+        2 => name.replace('%', "%25"),
+        3 => name.replace('%', "%25").replace(':', "%3A"),
+        4 => name.replace(':', "%253A"),
+        5 => name.replace(':', "\\:"),
+        6 => name.replace(':', "::"),
+        7 => format!("{name}%"),
+        8 => format!("%{name}"),
+        _ => name.replace(':', "%3A").replace('%', "%25"),
+    }
+}
+
 fn worst(classes: &BTreeSet<&'static str>) -> &'static str {
-    if classes.contains("other") {
+    if classes.contains("tenant_names_equal_after_unescaping") {
+        "tenant_names_equal_after_unescaping"
+    } else if classes.contains("other") {
         "other"
     } else if classes.contains("scan_runs_past_prefix") {
         "scan_runs_past_prefix"
@@ -269,6 +315,23 @@ fn gen_names(r: &mut Rng) -> Vec<String> {
         out.push(b.to_string());
         out.push(r.pick(&exts).to_string());
     }
+    if out.is_empty() && r.chance(1, 2) {
+        // a pair (sometimes a chain of three) where one name is an escaped spelling of the other
+        let with_sep: Vec<&str> = NAMES.iter().cloned().filter(|x| x.contains(':')).collect();
+        let b = r.pick(&with_sep).to_string();
+        let v = escaped_variant(&b, r.below(10));
+        out.push(b);
+        if !out.contains(&v) {
+            out.push(v.clone());
+        }
+        if n >= 3 && r.chance(1, 2) {
+            // escape again (double encoding) or a second spelling of the same base
+            let w = if r.chance(1, 2) { escaped_variant(&v, r.below(10)) } else { escaped_variant(&out[0], r.below(10)) };
+            if !out.contains(&w) {
+                out.push(w);
+            }
+        }
+    }
     let mut guard = 0;
     while out.len() < n && guard < 100 {
         guard += 1;
@@ -293,6 +356,15 @@ fn small_props(r: &mut Rng) -> Map<String, Value> {
     m
 }
 
+fn upd_props(r: &mut Rng) -> Map<String, Value> {
+    let mut m = Map::new();
+    m.insert(if r.chance(1, 2) { "k".to_string() } else { "u".to_string() }, gen_small_value(r));
+    if r.chance(1, 4) {
+        m.insert("w".into(), gen_small_value(r));
+    }
+    m
+}
+
 impl Scenario for C17 {
     fn id(&self) -> &'static str {
         "C17"
@@ -304,12 +376,12 @@ impl Scenario for C17 {
         }
     }
     fn rule(&self) -> &'static str {
-        "case = 2..3 distinct tenant names from a pool of 20 adversarial names (half of the runs contain a pair where one name is the other plus ':…'), and a history of 2..24 events: put/delete of nodes and relationships (ids 0..3 shared by all tenants, content tagged with its owner) directly on PersistentStorage or through PersistenceManager::persist_*, recover(tenant), flush, reopen. After every event every tenant's scan_nodes, scan_edges, get_node/get_edge for every id and list_persisted_tenants are compared with the per-tenant model. Non-trivial = at least two tenants held data at the same time and a maintenance event (flush or reopen) happened. Distinct = hash of (names, sequence of (op kind, tenant index, id, route))."
+        "case = 2..3 distinct tenant names from a pool of 20 adversarial names (half of the runs contain a pair where one name is the other plus ':…'), and a history of 2..24 events: put/delete of nodes and relationships (ids 0..3 shared by all tenants, content tagged with its owner) directly on PersistentStorage or through PersistenceManager::persist_*, recover(tenant), flush, reopen. After every event every tenant's scan_nodes, scan_edges, get_node/get_edge for every id and list_persisted_tenants are compared with the per-tenant model. Names: in a quarter of the runs the names contain a pair (or chain of three) where one is an escaped spelling of the other (':' as %3A / %3a / %253A / \\: / '::', '%' as %25, a leading/trailing '%'). Events also include persist_update_node_properties / persist_update_edge_properties (half of them aimed at the id the previous put/update touched, as another tenant); the model merges the properties when the tenant holds the entity and does nothing otherwise. Non-trivial = at least two tenants held data at the same time and a maintenance event (flush or reopen) happened. Distinct = hash of (names, sequence of (op kind, tenant index, id, route))."
     }
     fn real_components(&self) -> Vec<&'static str> {
         vec![
             "samyama::persistence::PersistentStorage (put/get/delete/scan_nodes/scan_edges/list_persisted_tenants) over real RocksDB on tmpfs",
-            "samyama::persistence::PersistenceManager (persist_create_*, persist_delete_*, recover, list_persisted_tenants, flush)",
+            "samyama::persistence::PersistenceManager (persist_create_*, persist_delete_*, persist_update_node_properties, persist_update_edge_properties, recover, list_persisted_tenants, flush)",
             "samyama::persistence::TenantManager::create_tenant (accepts every name)",
         ]
     }
@@ -318,10 +390,26 @@ impl Scenario for C17 {
             "every string is a tenant name the system accepts: TenantManager::create_tenant and POST /api/tenants validate nothing (the scenario checks that create_tenant accepted each name it uses)",
             "tenant listing: only 'a listed name must be a tenant that holds data' is demanded (a name produced by cutting another tenant's name at ':' makes start-up recover that data under the wrong tenant); completeness of the listing (a tenant holding only relationships is not listed: the listing reads the nodes column family only) is NOT demanded by the statement and is only counted as a probe",
             "a put on an existing id overwrites (RocksDB put); the model does the same",
+            "persist_update_*_properties sets the given properties on the stored entity of THAT tenant and stores nothing when that tenant holds no such entity (read from the code: `if let Some(node) = storage.get_node(tenant, id)`); labels, endpoints and the other properties are unchanged",
         ]
     }
     fn required_probes(&self, _tier: Tier) -> Vec<&'static str> {
-        vec!["name_extends_another", "three_tenants", "same_id_in_two_tenants", "reopen_with_data", "flush_with_data", "recover_with_two_holders", "empty_tenant_name", "via_manager", "via_storage"]
+        vec![
+            "name_extends_another",
+            "three_tenants",
+            "same_id_in_two_tenants",
+            "reopen_with_data",
+            "flush_with_data",
+            "recover_with_two_holders",
+            "empty_tenant_name",
+            "via_manager",
+            "via_storage",
+            "name_is_escaped_spelling_of_another",
+            "update_node_properties",
+            "update_edge_properties",
+            "update_right_after_another_tenant_wrote_same_id",
+            "update_of_id_only_another_tenant_holds",
+        ]
     }
     fn generate(&self, s: &mut Streams, _run_index: u64, _tier: Tier) -> Case {
         let mut case = Case::new("C17");
@@ -332,8 +420,12 @@ impl Scenario for C17 {
         let n = s.knobs.short_len(2, 24);
         let r = &mut s.workload;
         for _ in 0..n {
-            let w: [u32; 7] = [10, 7, 3, 3, 3, 2, 2];
+            let w: [u32; 9] = [10, 7, 3, 3, 3, 2, 2, 5, 3];
             let ev = match r.weighted(&w) {
+                // property updates through the manager; `adj` = 1: act on the id the previous
+                // event touched, as the NEXT tenant (cross-tenant adjacency on one id)
+                7 => json!({"op":"upd_node","t":r.below(nt),"id":r.below(MAX_ID + 1),"props":upd_props(r),"adj":r.below(2)}),
+                8 => json!({"op":"upd_edge","t":r.below(nt),"id":r.below(MAX_ID + 1),"props":upd_props(r),"ver":r.below(3),"adj":r.below(2)}),
                 0 => json!({"op":"put_node","t":r.below(nt),"id":r.below(MAX_ID + 1),"label":r.below(2),"props":small_props(r),"via":r.below(2)}),
                 1 => json!({"op":"put_edge","t":r.below(nt),"id":r.below(MAX_ID + 1),"s":r.below(4),"d":r.below(4),"type":r.below(2),"props":small_props(r),"via":r.below(2)}),
                 2 => json!({"op":"del_node","t":r.below(nt),"id":r.below(MAX_ID + 1),"via":r.below(2)}),
@@ -359,6 +451,13 @@ impl Scenario for C17 {
                 let mut e = ev.clone();
                 e["via"] = json!(0);
                 out.push(e);
+            }
+            "upd_node" | "upd_edge" => {
+                if u(ev, "adj") != 0 {
+                    let mut e = ev.clone();
+                    e["adj"] = json!(0);
+                    out.push(e);
+                }
             }
             "reopen" => out.push(json!({"op":"flush"})),
             _ => {}
@@ -396,10 +495,21 @@ impl Scenario for C17 {
         let mut sig_parts: Vec<String> = vec![format!("{:?}", w.names)];
         let mut two_holders_seen = false;
         let mut maint_with_two = false;
+        if w.names.iter().any(|a| w.names.iter().any(|b| a != b && unescaped(a) == unescaped(b))) {
+            o.probe("name_is_escaped_spelling_of_another");
+        }
+        // (tenant index, id, entity tag) of the previous put/update through the manager or storage
+        let mut prev_touch: Option<(usize, u64, char)> = None;
         for (step, ev) in case.events.iter().enumerate() {
             let kind = op(ev).to_string();
-            let ti = (u(ev, "t") % nt) as usize;
-            let id = w.ids[(u(ev, "id") % (MAX_ID + 1)) as usize];
+            let mut ti = (u(ev, "t") % nt) as usize;
+            let mut id = w.ids[(u(ev, "id") % (MAX_ID + 1)) as usize];
+            if matches!(kind.as_str(), "upd_node" | "upd_edge") && u(ev, "adj") % 2 == 1 {
+                if let Some((pt, pid, _)) = prev_touch {
+                    ti = (pt + 1 + (u(ev, "t") % (nt - 1).max(1)) as usize) % nt as usize;
+                    id = pid;
+                }
+            }
             let via = u(ev, "via") % 2;
             let tname = w.names[ti].clone();
             let holders = w.models.iter().filter(|m| !m.nodes.is_empty() || !m.edges.is_empty()).count();
@@ -428,6 +538,30 @@ impl Scenario for C17 {
                     let r = if via == 1 { p.persist_create_edge(&tname, &edge).map_err(|e| e.to_string()) } else { p.storage().put_edge(&tname, &edge).map_err(|e| e.to_string()) };
                     err = r.err();
                     w.models[ti].edges.insert(id, CEdge { src: u(ev, "s"), dst: u(ev, "d"), ty: ty.to_string(), props: bm });
+                }
+                "upd_node" | "upd_edge" => {
+                    let is_node = kind == "upd_node";
+                    let (pmap, bm) = props_from(&ev["props"]);
+                    let r = if is_node { p.persist_update_node_properties(&tname, id, &pmap).map_err(|e| e.to_string()) } else { p.persist_update_edge_properties(&tname, id, &pmap, u(ev, "ver")).map_err(|e| e.to_string()) };
+                    err = r.err();
+                    o.probe(if is_node { "update_node_properties" } else { "update_edge_properties" });
+                    // an update of an entity the tenant does not hold stores nothing
+                    let hit = if is_node {
+                        w.models[ti].nodes.get_mut(&id).map(|n| n.props.extend(bm.clone())).is_some()
+                    } else {
+                        w.models[ti].edges.get_mut(&id).map(|e| e.props.extend(bm.clone())).is_some()
+                    };
+                    if !hit {
+                        o.probe("update_of_entity_the_tenant_does_not_hold");
+                        if w.models.iter().enumerate().any(|(j, m)| j != ti && if is_node { m.nodes.contains_key(&id) } else { m.edges.contains_key(&id) }) {
+                            o.probe("update_of_id_only_another_tenant_holds");
+                        }
+                    }
+                    if let Some((pt, pid, tag)) = prev_touch {
+                        if hit && pt != ti && pid == id && tag == (if is_node { 'n' } else { 'e' }) {
+                            o.probe("update_right_after_another_tenant_wrote_same_id");
+                        }
+                    }
                 }
                 "del_node" => {
                     let r = if via == 1 { p.persist_delete_node(&tname, id).map_err(|e| e.to_string()) } else { p.storage().delete_node(&tname, id).map_err(|e| e.to_string()) };
@@ -482,9 +616,17 @@ impl Scenario for C17 {
                 }
                 _ => continue,
             }
+            match kind.as_str() {
+                "put_node" | "upd_node" => prev_touch = Some((ti, id, 'n')),
+                "put_edge" | "upd_edge" => prev_touch = Some((ti, id, 'e')),
+                "del_node" | "del_edge" => prev_touch = None,
+                _ => {}
+            }
             if matches!(kind.as_str(), "put_node" | "put_edge" | "del_node" | "del_edge") {
                 o.probe(if via == 1 { "via_manager" } else { "via_storage" });
                 sig_parts.push(format!("{kind}:{ti}:{id}:{via}"));
+            } else if matches!(kind.as_str(), "upd_node" | "upd_edge") {
+                sig_parts.push(format!("{kind}:{ti}:{id}"));
             } else {
                 sig_parts.push(format!("{kind}:{ti}"));
             }
